@@ -393,6 +393,14 @@ partial def loop (stdin : IO.FS.Stream) (h : Option Hist) (b : Block) : IO Unit 
     let members := ms.filterMap fun t => match nums t with | [c, s, f] => some (c, s, f == 1) | _ => none
     let counts := (ss.drop 2).filterMap fun t => match nums t with | [s, n] => some (s, n) | _ => none
     loop stdin h { b with quies := some (members, counts) }
+  | "O" :: "stuck" :: _ =>
+    -- the harness gave up on an event that did not return: a handler blocked for good (C08), by the locks if anything (C09)
+    let h := h.map fun h =>
+      let what := s!"event {h.nEvents} ({" ".intercalate b.ev}) did not return within the harness' patience: the handler is blocked for good"
+      { h with nEvents := h.nEvents + 1, blind := true,
+               diff := h.diff <|> some s!"event={h.nEvents} kind=stuck topic=handler :: {what}",
+               concViol := (h.concViol.push ("C08", "request-never-completes", what)).push ("C09", "request-never-completes", what) }
+    loop stdin h {}
   | "O" :: rest =>
     let h := h.map fun h => if b.ev.head? == some "conc" then processConc h b rest else processBlock h b (parseOutcome rest)
     loop stdin h {}
